@@ -1,19 +1,31 @@
 """K1 (history replay) machinery shared by C20-C23: Subject, BehaviorSubject,
 AsyncSubject (synchronous delivery) and ReplaySubject (delivery through a
-ScheduledObserver on a VirtualTimeScheduler that the driver drains after every
-top-level operation).
+ScheduledObserver: on the default trampoline, or on a VirtualTimeScheduler /
+HistoricalScheduler that the driver drains after every top-level operation or
+where the history says ('drain',)).
 
 A history is a TREE of calls:
     top     : [op]                     operations issued by the driver
     scripts : {o: [[op], [op], ...]}   what observer o does from inside its k-th callback
     op      : ('sub', o) | ('unsub', o) | ('next', value_id) | ('err', code) | ('done',) |
-              ('dispose',) | ('adv', d)                      (adv: ReplaySubject only)
+              ('dispose',) | ('adv', d) | ('drain',)         (adv, drain: ReplaySubject only; drain: top level,
+                                                              explicit-drain mode -- run the virtual-time scheduler)
+    forms   : {o: form}   HOW observer o subscribes (default 'obj'); not part of the model's input:
+              'obj' subscribe(observer object)      'cb' subscribe(on_next, on_error, on_completed)
+              'kw'  subscribe(on_completed=..., on_error=..., on_next=...)
+              'rx'  subscribe(reactivex.Observer(on_next, on_error, on_completed))
+              -- these four have all three handlers and must behave alike (same Coq model) --
+              'n' subscribe(on_next)   'nc' subscribe(on_next, on_completed=...)   'ne' subscribe(on_next, on_error)
+              -- partial forms: the missing handlers are the library defaults (on_completed: no-op, on_error:
+              RAISES the error); oracle-only family `partial_family`
+    error codes: 11, 12 -> k2.UserError(code); 13 -> FalsyUserError(13), an exception object whose truth value
+              is False (`__len__` returns 0): `if exception:` and `if exception is not None:` differ on it
 Driver rules (mirrored by the Coq engines Subjects/Subject.v and Subjects/Replay.v):
   * every operation, nested ones included, runs inside try/except; an exception
     is logged as ('raised', code) -- callbacks never raise into the library;
   * ('sub', o) with an id used before is skipped; ('unsub', o) while subscribe()
     of o has not returned (no handle yet) is skipped;
-  * subscribers are observer OBJECTS with all three handlers; Observable.subscribe
+  * subscribers have all three handlers (forms obj / cb / kw / rx); Observable.subscribe
     wraps them in an AutoDetachObserver.
 
 The record list a run produces is richer than what the model is compared on:
@@ -30,6 +42,24 @@ from lib import gz
 POOL = k2.Pool(k2.POOL)
 NONE_ID = POOL.id(None)
 DISPOSED = k2.LIB_ERRORS["DisposedException"]
+ERR_FALSY = 13
+ERR_CODES = [11, 12, ERR_FALSY]
+FORMS_FULL = ("obj", "cb", "kw", "rx")
+FORMS_PARTIAL = ("n", "nc", "ne")
+HANDLERS = {"obj": "nec", "cb": "nec", "kw": "nec", "rx": "nec", "n": "n", "nc": "nc", "ne": "ne"}
+
+
+class FalsyUserError(k2.UserError):
+    """an exception object that is falsy: bool(e) is False because len(e) == 0"""
+
+    def __len__(self):
+        return 0
+
+
+def make_error(code):
+    e = FalsyUserError(code) if code == ERR_FALSY else k2.UserError(code)
+    assert bool(e) == (code != ERR_FALSY)
+    return e
 
 
 # --------------------------------------------------------------------------
@@ -37,13 +67,19 @@ DISPOSED = k2.LIB_ERRORS["DisposedException"]
 # --------------------------------------------------------------------------
 
 class LogObserver:
-    """observer object handed to subject.subscribe()"""
+    """observer object handed to subject.subscribe() (or whose bound methods are: callback forms).
+    `hidden`: handler kinds ('e', 'c') which a SHADOW of a partial-form subscriber has only so that the
+    run can be observed: they log (flag hidden) but run no reaction script and count no callback."""
 
-    def __init__(self, drv, o):
-        self.drv, self.o = drv, o
+    def __init__(self, drv, o, hidden=""):
+        self.drv, self.o, self.hidden = drv, o, hidden
 
     def _cb(self, n):
         d = self.drv
+        if n[0].lower() in self.hidden:
+            d.rec.append({"t": "got", "o": self.o, "n": n, "call": d.stack[-1] if d.stack else None,
+                          "drain": d.in_drain, "hidden": True})
+            return
         d.rec.append({"t": "got", "o": self.o, "n": n, "call": d.stack[-1] if d.stack else None,
                       "drain": d.in_drain})
         k = d.calls[self.o]
@@ -63,20 +99,49 @@ class LogObserver:
         self._cb(("C",))
 
 
+def subscribe_as(subject, lo, form):
+    """subscribe LogObserver `lo` in the given form -> the disposable"""
+    if form == "obj":
+        return subject.subscribe(lo)
+    if form == "cb":
+        return subject.subscribe(lo.on_next, lo.on_error, lo.on_completed)
+    if form == "kw":
+        return subject.subscribe(on_completed=lo.on_completed, on_error=lo.on_error, on_next=lo.on_next)
+    if form == "rx":
+        from reactivex.observer import Observer
+        return subject.subscribe(Observer(lo.on_next, lo.on_error, lo.on_completed))
+    if form == "n":
+        return subject.subscribe(lo.on_next)
+    if form == "nc":
+        return subject.subscribe(lo.on_next, on_completed=lo.on_completed)
+    if form == "ne":
+        return subject.subscribe(lo.on_next, lo.on_error)
+    raise AssertionError(form)
+
+
 class Driver:
-    def __init__(self, subject, scripts, scheduler=None):
+    def __init__(self, subject, scripts, scheduler=None, forms=None, shadow=False):
         self.subject, self.scripts, self.scheduler = subject, scripts, scheduler
+        self.forms, self.shadow = forms or {}, shadow
         self.rec = []
         self.handles, self.calls, self.stack = {}, {}, []
         self.ncalls = 0
         self.in_drain = False
         self.clock_expected = 0
+        self.scale = 1                  # seconds per tick (virtual-time modes)
+
+    def pending(self):
+        """number of actions the virtual-time scheduler holds (None without one)"""
+        try:
+            return len(self.scheduler._queue) if self.scheduler is not None else None
+        except Exception:   # noqa: BLE001
+            return None
 
     def do(self, op, in_cb=None):
         cid = self.ncalls
         self.ncalls += 1
         self.rec.append({"t": "call", "id": cid, "op": op, "parent": self.stack[-1] if self.stack else None,
-                         "in_cb": in_cb, "now": self.clock_expected})
+                         "in_cb": in_cb, "now": self.clock_expected, "pending": self.pending()})
         self.stack.append(cid)
         raised = None
         try:
@@ -86,7 +151,12 @@ class Driver:
                 o = op[1]
                 if o not in self.calls:
                     self.calls[o] = 0
-                    h = s.subscribe(LogObserver(self, o))
+                    form = self.forms.get(o, "obj")
+                    if self.shadow and form in FORMS_PARTIAL:
+                        # the same subscriber as an observer object whose extra handlers only log
+                        h = s.subscribe(LogObserver(self, o, hidden="".join(set("ec") - set(HANDLERS[form]))))
+                    else:
+                        h = subscribe_as(s, LogObserver(self, o), form)
                     self.handles[o] = h
             elif k == "unsub":
                 h = self.handles.get(op[1])
@@ -95,13 +165,13 @@ class Driver:
             elif k == "next":
                 s.on_next(POOL.val(op[1]))
             elif k == "err":
-                s.on_error(k2.UserError(op[1]))
+                s.on_error(make_error(op[1]))
             elif k == "done":
                 s.on_completed()
             elif k == "dispose":
                 s.dispose()
             elif k == "adv":
-                self.scheduler.sleep(op[1])
+                self.scheduler.sleep(op[1] * self.scale)
                 self.clock_expected += op[1]
             else:
                 raise AssertionError(op)
@@ -119,28 +189,71 @@ class Driver:
         self.in_drain = False
 
 
-def make_subject(kind, v0=None, buffer_size=None, window=None, scheduler=None):
+def make_subject(kind, v0=None, buffer_size=None, window=None, scheduler=None, spy=None):
     from reactivex.subject import AsyncSubject, BehaviorSubject, ReplaySubject, Subject
     if kind == "subject":
         return Subject()
     if kind == "behavior":
         return BehaviorSubject(POOL.val(v0))
     if kind == "async":
-        return AsyncSubject()
+        return AsyncSubject() if spy is None else spied_async(spy)
     if kind == "replay":
         return ReplaySubject(buffer_size, window, scheduler)
     raise AssertionError(kind)
 
 
-def run_sync(kind, hist, v0=None):
+def run_sync(kind, hist, v0=None, forms=None, shadow=False, spy=None):
     """-> (records, probe) ; probe = what a bare subject.subscribe() does at the end
     ('raised', code) | ('returned',)"""
     top, scripts = hist
-    s = make_subject(kind, v0)
-    d = Driver(s, scripts)
+    s = make_subject(kind, v0, spy=spy)
+    d = Driver(s, scripts, forms=forms, shadow=shadow)
     for op in top:
         d.do(op)
     return d.rec, bare_probe(s)
+
+
+# --------------------------------------------------------------------------
+# C23 anchor "value/has_value captured under lock": a dynamic lock-discipline witness
+# --------------------------------------------------------------------------
+
+SPIED_ATTRS = ("value", "has_value", "observers", "exception")
+
+
+def spied_async(log):
+    """An AsyncSubject whose shared fields are properties recording every access made BY A
+    METHOD DEFINED IN reactivex/subject/asyncsubject.py while `self.lock` is not held by the
+    accessing thread (RLock._is_owned) -> log entries (attr, 'get'|'set', function name, line).
+    Accesses from __init__ are exempt (the object is not shared yet); accesses from other files
+    (Subject, InnerSubscription) are not this property's anchor.  Behaviour is unchanged."""
+    import sys
+    from reactivex.subject import AsyncSubject
+
+    def prop(name):
+        slot = "_spied_" + name
+
+        def check(self, how):
+            if not self.__dict__.get("_spy_armed"):
+                return
+            f = sys._getframe(2)
+            if f.f_code.co_filename.replace("\\", "/").endswith("reactivex/subject/asyncsubject.py") \
+                    and not self.lock._is_owned():
+                log.append((name, how, f.f_code.co_name, f.f_lineno))
+
+        def fget(self):
+            check(self, "get")
+            return self.__dict__[slot]
+
+        def fset(self, v):
+            check(self, "set")
+            self.__dict__[slot] = v
+
+        return property(fget, fset)
+
+    cls = type("SpiedAsyncSubject", (AsyncSubject,), {a: prop(a) for a in SPIED_ATTRS})
+    s = cls()
+    s.__dict__["_spy_armed"] = True
+    return s
 
 
 def bare_probe(s):
@@ -152,26 +265,88 @@ def bare_probe(s):
         return ("raised", k2.err_id(e))
 
 
-def run_replay(hist, buffer_size, window):
-    """ReplaySubject on a VirtualTimeScheduler (clock in seconds = ticks, starts at 0).
-    After every top-level operation the scheduler is drained with start(): all
-    pending ScheduledObserver.run actions are due at the current clock, so they
-    run in FIFO order and the clock does not move.  -> (records, probe, ok) where ok
-    is False if the clock moved on its own (VirtualTimeScheduler's anti-spinning
-    bump after 100 actions at one instant), which the model does not cover."""
-    from reactivex.scheduler import VirtualTimeScheduler
+WREPS = ("num", "float", "td", "slack", "tdslack")
+SCALES = (1, 0.5, 0.25)
+SCHEDS = ("vt", "hist", "hist0")
+VT_DEFAULT = {"sched": "vt", "scale": 1, "wrep": "num", "drains": "auto"}
+
+
+def window_arg(w, scale, wrep):
+    """the `window` argument of ReplaySubject for a window of w ticks of `scale` seconds.
+    num: int when integral, else float; float; td: timedelta; slack / tdslack: half a tick MORE
+    (a fractional float / timedelta strictly between two possible ages -- ages are whole ticks, so
+    the retained set is that of w ticks)"""
+    from datetime import timedelta
+    if w is None:
+        return None
+    secs = w * scale
+    if wrep == "num":
+        return int(secs) if float(secs).is_integer() else secs
+    if wrep == "float":
+        return float(secs)
+    if wrep == "td":
+        return timedelta(seconds=secs)
+    if wrep == "slack":
+        return secs + scale / 2
+    if wrep == "tdslack":
+        return timedelta(seconds=secs + scale / 2)
+    raise AssertionError(wrep)
+
+
+def make_vt_scheduler(kind):
+    from datetime import datetime
+    from reactivex.scheduler import HistoricalScheduler, VirtualTimeScheduler
+    if kind == "vt":
+        return VirtualTimeScheduler()                     # float clock, starts at 0.0
+    if kind == "hist0":
+        return HistoricalScheduler()                      # datetime clock, starts at UTC_ZERO
+    if kind == "hist":
+        return HistoricalScheduler(datetime(2021, 3, 4, 5, 6, 7, 250000))
+    raise AssertionError(kind)
+
+
+def run_replay(hist, buffer_size, window, cfg=None, forms=None):
+    """ReplaySubject on a virtual-time scheduler whose clock the history controls (one tick =
+    cfg['scale'] seconds; ('adv', d) = scheduler.sleep(d ticks)).
+      cfg['sched']  'vt' VirtualTimeScheduler (float clock) | 'hist' / 'hist0' HistoricalScheduler
+                    (datetime clock, explicit / default initial instant)
+      cfg['wrep']   how `window` (in ticks) is handed to the constructor: see window_arg
+      cfg['drains'] 'auto': the scheduler is drained with start() after every top-level call;
+                    'explicit': only where the history says ('drain',) -- so an unsubscribe, an emission,
+                    another subscribe or a clock advance can happen while replay items are still
+                    queued -- and once more at the very end.
+    All pending ScheduledObserver.run actions are due at a clock <= now, so a drain runs them in FIFO
+    order and the clock does not move.  -> (records, probe, ok) where ok is False if the clock moved on
+    its own (VirtualTimeScheduler's anti-spinning bump after 100 actions at one instant), which the
+    model does not cover."""
+    from datetime import timedelta
+    cfg = dict(VT_DEFAULT, **(cfg or {}))
     top, scripts = hist
-    sch = VirtualTimeScheduler()
-    s = make_subject("replay", buffer_size=buffer_size, window=window, scheduler=sch)
-    d = Driver(s, scripts, scheduler=sch)
+    sch = make_vt_scheduler(cfg["sched"])
+    t0 = sch.now
+    try:
+        s = make_subject("replay", buffer_size=buffer_size, window=window_arg(window, cfg["scale"], cfg["wrep"]),
+                         scheduler=sch)
+    except Exception as e:   # noqa: BLE001  (a window representation the constructor rejects)
+        return [], ("constructor-raised", f"{type(e).__name__}: {e}"), True
+    d = Driver(s, scripts, scheduler=sch, forms=forms)
+    d.scale = cfg["scale"]
+    auto = cfg["drains"] == "auto"
     for op in top:
+        if op[0] == "drain":
+            if not auto:
+                d.drain()
+            continue
         d.do(op)
+        if auto:
+            d.drain()
+    if not auto:
         d.drain()
-    ok = float(sch._clock) == float(d.clock_expected)
+    ok = (sch.now - t0) == timedelta(seconds=d.clock_expected * cfg["scale"])
     return d.rec, bare_probe(s), ok
 
 
-def run_replay_sync(hist, buffer_size, window=None):
+def run_replay_sync(hist, buffer_size, window=None, forms=None):
     """ReplaySubject with its DEFAULT scheduler (CurrentThreadScheduler.singleton(): a trampoline).
     No drain calls: a ScheduledObserver drain scheduled from a top-level call runs inline (the
     trampoline is idle), one scheduled from inside an observer callback is queued behind the
@@ -183,9 +358,9 @@ def run_replay_sync(hist, buffer_size, window=None):
     tramp = CurrentThreadScheduler.singleton().get_trampoline()
     ok = tramp.idle()
     s = make_subject("replay", buffer_size=buffer_size, window=window, scheduler=None)
-    d = Driver(s, scripts, scheduler=None)
+    d = Driver(s, scripts, scheduler=None, forms=forms)
     for op in top:
-        if op[0] == "adv":
+        if op[0] in ("adv", "drain"):
             continue
         d.do(op)
         ok = ok and tramp.idle()
@@ -217,6 +392,28 @@ def g_op(op, pre="O"):
 
 def g_ops(ops, pre="O"):
     return "[" + "; ".join(g_op(o, pre) for o in ops) + "]"
+
+
+def g_xhist(hist, mode):
+    """C22: the top level as a program of calls and drains (Subjects/ReplaySched.v xtop).
+    mode 'sync': no drains (default scheduler; adv skipped by the driver); 'auto': a drain after every
+    call; 'explicit': drains where the history has them + the final one"""
+    top, scripts = hist
+    prog = []
+    for op in top:
+        if op[0] == "drain":
+            if mode == "explicit":
+                prog.append("XDrain")
+            continue
+        if mode == "sync" and op[0] == "adv":
+            continue
+        prog.append(f"XOp ({g_op(op, 'R')})")
+        if mode == "auto":
+            prog.append("XDrain")
+    if mode == "explicit":
+        prog.append("XDrain")
+    sc = "; ".join(f"({o}%nat, [" + "; ".join(g_ops(r, "R") for r in rs) + "])" for o, rs in sorted(scripts.items()))
+    return f"([{'; '.join(prog)}], [{sc}])"
 
 
 def g_hist(hist, pre="O"):
@@ -264,7 +461,7 @@ def gen_op(rng, nobs, nested=False, adv=False, used=None):
     if r < 0.78:
         return ("next", rng.choice(VALS))
     if r < 0.85:
-        return ("err", rng.choice([11, 12]))
+        return ("err", rng.choice(ERR_CODES))
     if r < 0.94:
         return ("done",)
     return ("dispose",)
@@ -671,27 +868,129 @@ SYNC_IMPORTS = "Base.Prelude Ops.Machine Subjects.Subject Subjects.Behavior Subj
 FUEL = 20000
 
 
+def rot_forms(i, n=4):
+    """deterministic rotation of the four full subscriber forms over observers 0..n-1 by case index"""
+    return {o: FORMS_FULL[(i // (4 ** o)) % 4] for o in range(n)}
+
+
+def rand_forms(rng, n=12, partial=False):
+    """random subscriber forms for observers 0..n-1 ('obj' is left implicit)"""
+    forms = {}
+    for o in range(n):
+        if partial and rng.random() < 0.5:
+            forms[o] = rng.choice(FORMS_PARTIAL)
+        elif rng.random() < 0.6:
+            forms[o] = rng.choice(FORMS_FULL[1:])
+    return forms
+
+
 def sync_cases(pid, tier, rng):
-    """(history, v0) list: exhaustive small scopes first, then seeded random trees"""
+    """(history, v0, forms) list: exhaustive small scopes first, then seeded random trees"""
     kind = SYNC[pid]["kind"]
     a, b = 0, 2                     # pool ids of None and False
-    alpha = [("sub", 0), ("sub", 1), ("unsub", 0), ("next", a), ("next", b), ("err", 11), ("done",), ("dispose",)]
+    alpha = [("sub", 0), ("sub", 1), ("unsub", 0), ("next", a), ("next", b), ("err", 11), ("err", ERR_FALSY),
+             ("done",), ("dispose",)]
     L = 3 if tier == "quick" else 4
-    cases = [(h, a) for h in enum_flat(alpha, L)]
+    cases = [(h, a, rot_forms(i, 2)) for i, h in enumerate(enum_flat(alpha, L))]
     n_flat = len(cases)
-    tail = [("next", a), ("err", 11), ("done",), ("dispose",), ("unsub", 1), ("sub", 3)]
+    tail = [("next", a), ("err", ERR_FALSY), ("done",), ("dispose",), ("unsub", 1), ("sub", 3)]
     reactions = [("unsub", 0), ("unsub", 1), ("unsub", 2), ("sub", 3), ("next", b), ("err", 12), ("done",),
                  ("dispose",)]
-    cases += [(h, b) for h in enum_reentrant([("sub", 0), ("sub", 1), ("sub", 2)], tail, reactions,
-                                             2 if tier == "quick" else 3)]
+    cases += [(h, b, rot_forms(i, 4))
+              for i, h in enumerate(enum_reentrant([("sub", 0), ("sub", 1), ("sub", 2)], tail, reactions,
+                                                   2 if tier == "quick" else 3))]
     n_re = len(cases) - n_flat
     nrand = 700 if tier == "quick" else 12000
     for _ in range(nrand):
-        cases.append((gen_history(rng), rng.choice(VALS)))
+        cases.append((gen_history(rng), rng.choice(VALS), rand_forms(rng)))
     return cases, {"exhaustive_flat": n_flat, "exhaustive_reentrant": n_re, "random": nrand,
                    "flat_scope": f"all sequences of length <= {L} over {alpha}",
                    "reentrant_scope": f"sub0 sub1 sub2 ++ all tails of length <= {2 if tier == 'quick' else 3} over "
                                       f"{tail}, observer 0 or 1 reacting in its first callback with one of {reactions}"}
+
+
+# ---- oracle-only family: PARTIAL subscriber forms (handlers missing -> library defaults) ------------
+
+def partial_cases(tier, rng):
+    """(history, v0, forms): observer 0 (exhaustive scope) / about half of the observers (random trees)
+    subscribe with a partial callback form"""
+    a, b = 0, 2
+    alpha = [("sub", 0), ("sub", 1), ("unsub", 0), ("next", a), ("err", ERR_FALSY), ("done",), ("dispose",)]
+    L = 3 if tier == "quick" else 4
+    cases = []
+    for f in FORMS_PARTIAL:
+        for h in enum_flat(alpha, L):
+            if ("sub", 0) in h[0]:
+                cases.append((h, b, {0: f}))
+    n_ex = len(cases)
+    nrand = 500 if tier == "quick" else 8000
+    while len(cases) < n_ex + nrand:
+        h, forms = gen_history(rng), rand_forms(rng, partial=True)
+        subs = {op[1] for op in h[0] if op[0] == "sub"} | \
+               {op[1] for rs in h[1].values() for r in rs for op in r if op[0] == "sub"}
+        if any(forms.get(o) in FORMS_PARTIAL for o in subs):
+            cases.append((h, rng.choice(VALS), forms))
+    return cases, {"partial_exhaustive": n_ex, "partial_random": nrand}
+
+
+def _strip(r):
+    return {k: v for k, v in r.items() if k != "hidden"}
+
+
+def oracle_partial(kind, hist, v0, forms, stats=None):
+    """Partial callback forms, metamorphic + statement.  The history is run twice on the real class:
+      SHADOW  every partial-form subscriber is replaced by an observer OBJECT whose handlers for the
+              missing callbacks only log (no reaction, not counted): a run with full observers, on
+              which the property statement is evaluated as usual (oracle_sync);
+      REAL    the subscribers use their partial forms.
+    Demanded: the REAL run's records = the SHADOW run's records minus the hidden deliveries (the
+    notifications the partial subscriber has no handler for are simply not observable; everything else
+    -- who gets what, in which order, what every call raises -- is the same), UP TO the first moment the
+    library's default on_error (which raises) is handed an error; if that happens inside a subscribe()
+    call (late subscriber of a failed / disposed subject) that call must raise the error (the same reading
+    of `subscribing raises` as the bare-subscribe probe).  What happens after a raising default handler
+    (raising callbacks: C09) is not judged."""
+    recS, probeS = run_sync(kind, hist, v0, forms, shadow=True)
+    recP, probeP = run_sync(kind, hist, v0, forms, shadow=False)
+    bad = list(oracle_sync(kind, hist, v0, recS, probeS))
+    cut = None
+    for i, r in enumerate(recS):
+        if r["t"] == "got" and r.get("hidden") and r["n"][0] == "E" and "e" not in HANDLERS[forms.get(r["o"], "obj")]:
+            cut = i
+            break
+    vis = [_strip(r) for r in (recS if cut is None else recS[:cut]) if not r.get("hidden")]
+    got = recP if cut is None else recP[:len(vis)]
+    used = sorted({forms.get(r["op"][1], "obj") for r in recS if r["t"] == "call" and r["op"][0] == "sub"})
+
+    def fail(what, **d):
+        bad.append((f"partial-form|{what}", dict(d, what=what, forms={str(k): v for k, v in forms.items()},
+                                                  forms_used=used)))
+
+    if got != vis:
+        j = next((x for x in range(min(len(got), len(vis))) if got[x] != vis[x]), min(len(got), len(vis)))
+        fail("differs-from-object-form", first_difference_at=j,
+             partial_form_run=[repr(r) for r in got[j:j + 3]], object_form_run=[repr(r) for r in vis[j:j + 3]])
+    if cut is None:
+        if probeP != probeS:
+            fail("bare-subscribe-differs", partial_form_run=probeP, object_form_run=probeS)
+    else:
+        cid, code = recS[cut]["call"], recS[cut]["n"][1]
+        opc = next(r["op"] for r in recS if r["t"] == "call" and r["id"] == cid)
+        ret = [r["raised"] for r in recP if r["t"] == "ret" and r["id"] == cid]
+        if stats is not None:
+            stats["default_on_error_fired"] = stats.get("default_on_error_fired", 0) + 1
+            k = "default_on_error_in_" + opc[0]
+            stats[k] = stats.get(k, 0) + 1
+            if ret and ret[0] == code:
+                stats["default_on_error_surfaced_from_the_call"] = stats.get("default_on_error_surfaced_from_the_call", 0) + 1
+        if opc[0] == "sub" and got == vis and (not ret or ret[0] != code):
+            fail("subscribe-without-on_error-did-not-raise", call=opc, raised=ret[0] if ret else None, expected=code)
+    if stats is not None:
+        hid = sum(1 for r in recS if r.get("hidden"))
+        stats["hidden_notifications"] = stats.get("hidden_notifications", 0) + hid
+        for f in used:
+            stats["form_" + f] = stats.get("form_" + f, 0) + 1
+    return bad
 
 
 def check_sync(chk, pid):
@@ -705,10 +1004,13 @@ def check_sync(chk, pid):
     cases, scope = sync_cases(pid, tier, chk.rng)
     gal, H, nontrivial = [], new_hist(), set()
     seen_sigs = set()
-    for (h, v0) in cases:
-        rec, probe = run_sync(kind, h, v0)
+    H.update({"falsy_error": 0, "late_subscriber_after_falsy_error": 0, "forms": {}})
+    spy_log, spied = [], 0
+    for ci, (h, v0, forms) in enumerate(cases):
+        rec, probe = run_sync(kind, h, v0, forms)
         chk.cov["evaluations"] += 1
         hist_stats(h, rec, H)
+        form_stats(rec, forms, H)
         if is_nontrivial(rec):
             nontrivial.add(hist_key(h) + repr(v0))
         for sig, detail in oracle_sync(kind, h, v0, rec, probe):
@@ -716,18 +1018,60 @@ def check_sync(chk, pid):
                 continue
             seen_sigs.add(sig)
             def still(hh, _sig=sig):
-                r2, p2 = run_sync(kind, hh, v0)
+                r2, p2 = run_sync(kind, hh, v0, forms)
                 return any(s == _sig for s, _ in oracle_sync(kind, hh, v0, r2, p2))
             hm = shrink(h, still)
-            r2, p2 = run_sync(kind, hm, v0)
+            r2, p2 = run_sync(kind, hm, v0, forms)
             d2 = [d for s, d in oracle_sync(kind, hm, v0, r2, p2) if s == sig][0]
             chk.violation(f"{cfg['title']}|{sig}",
                           {"class": cfg["title"], "initial_value_id": v0, "history": hist_json(hm),
+                           "forms": {str(k): v for k, v in forms.items()},
                            "pool": [repr(v) for v in POOL.values],
+                           "error_codes": "11, 12: UserError; 13: FalsyUserError (bool(e) is False)",
                            "implementation_log": g_log(r2), "oracle": d2,
                            "expected": "see harness/subj.py:oracle_sync docstring"},
                           size=hist_size(hm))
         gal.append((f"({gz(v0)}, {g_hist(h)})", f"({g_log(rec)}, true)"))
+        # C23 anchor: value / has_value / observers / exception are touched by AsyncSubject's own
+        # methods only while the subject's lock is held (dynamic witness on the same histories)
+        if kind == "async" and (ci < scope["exhaustive_flat"] + scope["exhaustive_reentrant"] or ci % 3 == 0):
+            log = []
+            rec3, probe3 = run_sync(kind, h, v0, forms, spy=log)
+            spied += 1
+            if (rec3, probe3) != (rec, probe):
+                chk.tie_broken("lock-discipline spy changed the behaviour of AsyncSubject (harness bug)",
+                               {"history": hist_json(h)})
+            if log and not spy_log:
+                spy_log = [{"history": hist_json(h), "unlocked_accesses": sorted(set(log))}]
+    if kind == "async":
+        chk.cov["lock_discipline"] = {
+            "histories_run_with_spy": spied,
+            "rule": "every read/write of value, has_value, observers, exception made by a method defined in "
+                    "reactivex/subject/asyncsubject.py (_subscribe_core, _on_next_core, _on_completed_core, dispose) "
+                    "happens while the calling thread owns subject.lock (properties on a subclass + RLock._is_owned)",
+            "unlocked_accesses": spy_log}
+        if spy_log:
+            chk.tie_broken("C23 anchor `value/has_value captured under lock`: AsyncSubject touches shared state "
+                           "without holding its lock", spy_log[0])
+    # ---- partial callback forms (oracle-only: the model has no raising default handler)
+    pcases, pscope = partial_cases(tier, chk.rng)
+    PH = {}
+    for (h, v0, forms) in pcases:
+        chk.cov["evaluations"] += 2
+        for sig, detail in oracle_partial(kind, h, v0, forms, PH):
+            if sig in seen_sigs:
+                continue
+            seen_sigs.add(sig)
+            def still(hh, _sig=sig):
+                return any(s == _sig for s, _ in oracle_partial(kind, hh, v0, forms))
+            hm = shrink(h, still)
+            d2 = [d for s, d in oracle_partial(kind, hm, v0, forms) if s == sig][0]
+            chk.violation(f"{cfg['title']}|{sig}",
+                          {"class": cfg["title"], "family": "partial", "initial_value_id": v0,
+                           "history": hist_json(hm), "forms": {str(k): v for k, v in forms.items()},
+                           "pool": [repr(v) for v in POOL.values], "oracle": d2,
+                           "expected": "see harness/subj.py:oracle_partial docstring"},
+                          size=hist_size(hm))
     prelude = (f"Definition model (c : Z * history Z) := run_history {cfg['cls']} (fst c) {FUEL} (snd c).\n"
                "Definition out_eqb (a b : list (@event Z) * bool) := "
                "list_eqb event_eqb (fst a) (fst b) && Bool.eqb (snd a) (snd b).\n")
@@ -741,29 +1085,72 @@ def check_sync(chk, pid):
         if firsts:
             detail["model_says"] = lib.coq_show(pid, SYNC_IMPORTS, f"model {gal[firsts[0]][0]}", prelude)
             detail["history"] = hist_json(cases[firsts[0]][0])
+            detail["forms"] = {str(k): v for k, v in cases[firsts[0]][2].items()}
         chk.tie_broken(f"correspondence K1: Subjects model of {cfg['title']} vs implementation", detail)
     chk.cov["distinct_nontrivial"] = len(nontrivial)
     chk.cov["exhaustive"] = True
     chk.cov["rule"] = ("exhaustive small scopes (" + scope["flat_scope"] + "; " + scope["reentrant_scope"] +
                        ") + seeded random call trees (2-6 observers, up to 12 top-level calls, reaction scripts "
                        "of up to 3 callbacks x 2 nested calls per observer; values from a pool headed by None, 0, "
-                       "False, '', (), 0.0).  non-trivial = distinct (history, initial value) with at least two "
+                       "False, '', (), 0.0; error payloads 11, 12 = UserError and 13 = a FALSY exception object "
+                       "(__len__ returns 0), in the exhaustive alphabets too).  Every subscriber uses one of four "
+                       "equivalent FULL forms -- observer object, three positional callbacks, three keyword "
+                       "callbacks, a reactivex Observer instance -- rotated over the exhaustive cases and drawn at "
+                       "random otherwise (same model, same oracle).  Oracle-only family `partial`: subscribers "
+                       "with on_next only / on_next+on_completed / on_next+on_error (library defaults for the "
+                       "rest: on_error RAISES), exhaustive flat histories with observer 0 partial + random trees; "
+                       "the real run must equal the run in which those subscribers are observer objects, minus the "
+                       "deliveries they cannot see, up to the first firing of the raising default on_error; a "
+                       "late subscribe() without on_error must raise the stored error / DisposedException.  "
+                       "non-trivial = distinct (history, initial value) with at least two "
                        "deliveries reaching at least two different observers")
     chk.cov["input_distribution"] = dict(H, **{k: v for k, v in scope.items() if isinstance(v, int)})
+    chk.cov["partial_forms"] = dict(PH, **pscope)
     step = max(1, len(cases) // 5)
-    chk.add_samples([{"history": hist_json(h), "initial_value_id": v0} for (h, v0) in cases[scope["exhaustive_flat"] - 1::step]])
+    chk.add_samples([{"history": hist_json(h), "initial_value_id": v0, "forms": {str(k): v for k, v in f.items()}}
+                     for (h, v0, f) in cases[scope["exhaustive_flat"] - 1::step]])
     return chk.finish(
         trusted_extra=["K1 driver harness/subj.py (logging observers, try/except around every call, "
                        "attribution of deliveries to the innermost open call)",
                        "Observable.subscribe / AutoDetachObserver / SingleAssignmentDisposable / InnerSubscription "
-                       "are modelled inside the engine (Subjects/Subject.v) and covered by the same correspondence"],
+                       "are modelled inside the engine (Subjects/Subject.v) and covered by the same correspondence"] +
+                      (["C23 lock witness: properties installed on a SUBCLASS of AsyncSubject + RLock._is_owned(); "
+                        "single-threaded, so it shows WHERE the lock is held, not that holding it suffices"]
+                       if kind == "async" else []),
         assumptions=["single thread (the statement's histories are sequential call trees)",
                      "observer callbacks do not raise into the subject (every nested call is wrapped in "
-                     "try/except by the driver); raising callbacks are C09's subject",
+                     "try/except by the driver); raising callbacks are C09's subject; in the partial-form family "
+                     "the comparison stops at the first firing of the library's raising default on_error",
+                     "the model does not distinguish subscriber forms or truthiness of the exception object "
+                     "(error codes are integers): the four full forms and the falsy payload are tied to it by "
+                     "the correspondence, the partial forms by the oracle only",
                      "exact closed-form theorems (refinement to the broadcast specification, per-observer view) "
                      "are for histories of top-level calls; for call trees the theorems are the safety "
                      "properties (grammar, unsubscription effective at once, disposal) and the tree behaviour "
                      "is otherwise covered by correspondence + oracle"])
+
+
+def form_stats(rec, forms, H):
+    """coverage: subscriber forms actually used, falsy error payloads, late subscribers after one"""
+    falsy_at = None
+    for r in rec:
+        if r["t"] != "call":
+            continue
+        if r["op"] == ("err", ERR_FALSY):
+            H["falsy_error"] = H.get("falsy_error", 0) + 1
+            if falsy_at is None:
+                falsy_at = r["id"]
+        elif r["op"][0] == "sub":
+            f = forms.get(r["op"][1], "obj") if forms else "obj"
+            H["forms"][f] = H["forms"].get(f, 0) + 1
+    if falsy_at is not None:
+        tr = Trace(rec)
+        if any(c["op"][0] == "sub" and tr.status_at[c["id"]] == ("term", ("E", ERR_FALSY)) for c in tr.order):
+            H["late_subscriber_after_falsy_error"] = H.get("late_subscriber_after_falsy_error", 0) + 1
+
+
+def forms_from_json(d):
+    return {int(k): v for k, v in (d.get("forms") or {}).items()}
 
 
 def replay_sync(chk, pid, path):
@@ -773,13 +1160,21 @@ def replay_sync(chk, pid, path):
         print(json.dumps(d, indent=1))
         return 1
     kind = SYNC[pid]["kind"]
-    h, v0 = hist_from_json(d["history"]), d.get("initial_value_id", 0)
-    rec, probe = run_sync(kind, h, v0)
-    bad = oracle_sync(kind, h, v0, rec, probe)
-    print("history", h, "initial value id", v0)
-    print("implementation log", g_log(rec), "bare-subscribe probe", probe)
+    h, v0, forms = hist_from_json(d["history"]), d.get("initial_value_id", 0), forms_from_json(d)
+    print("history", h, "initial value id", v0, "forms", forms)
+    if d.get("family") == "partial":
+        bad = oracle_partial(kind, h, v0, forms)
+        for sh in (True, False):
+            rec, probe = run_sync(kind, h, v0, forms, shadow=sh)
+            print("object-form (shadow) run" if sh else "partial-form run     ", g_log(rec), "bare-subscribe probe", probe)
+    else:
+        rec, probe = run_sync(kind, h, v0, forms)
+        bad = oracle_sync(kind, h, v0, rec, probe)
+        print("implementation log", g_log(rec), "bare-subscribe probe", probe)
     for s, dd in bad:
         print("ORACLE FAILS", s, dd)
+    if bad:
+        print(f"VIOLATION property={pid} replay={path}")
     return 1 if bad else 0
 
 
@@ -790,7 +1185,7 @@ def replay_sync(chk, pid, path):
 REPLAY_IMPORTS = "Base.Prelude Ops.Machine Subjects.Subject Subjects.Replay Subjects.ReplaySched"
 
 
-def oracle_replay(hist, bs, w, rec, probe, sync=False):
+def oracle_replay(hist, bs, w, rec, probe, sync=False, cfg=None):
     """C22 on the observed run.  For every observer o (first subscribe call S, made at virtual
     time T):
       replay(o) = the values of the on_next calls that took effect before S, restricted to the
@@ -804,11 +1199,17 @@ def oracle_replay(hist, bs, w, rec, probe, sync=False):
     tr = Trace(rec)
     bad = []
     reentrant = any(c["parent"] is not None for c in tr.order)
+    if probe[0] == "constructor-raised":
+        return [("constructor-raised|sync=0", {"what": "ReplaySubject(buffer_size, window, scheduler) raised",
+                                               "raised": probe[1], "buffer_size": bs, "window": w,
+                                               "scheduler": dict(VT_DEFAULT, **(cfg or {})),
+                                               "window_argument": repr(window_arg(w, (cfg or VT_DEFAULT).get("scale", 1),
+                                                                                  (cfg or VT_DEFAULT).get("wrep", "num")))})]
 
     def fail(what, **d):
         bad.append((f"{what}|reentrant={int(reentrant)}|sync={int(sync)}",
                     dict(d, what=what, buffer_size=bs, window=w, scheduler="CurrentThreadScheduler" if sync
-                         else "VirtualTimeScheduler")))
+                         else dict(VT_DEFAULT, **(cfg or {})))))
 
     for o in tr.observers:
         got = [n for (_, n, _) in tr.view[o]]
@@ -869,20 +1270,62 @@ def oracle_replay(hist, bs, w, rec, probe, sync=False):
 
 
 def replay_cases(tier, rng):
+    """virtual-time cases (history, buffer_size, window, cfg, forms); see run_replay for cfg"""
     a, b = 0, 2
     alpha = [("sub", 0), ("sub", 1), ("next", a), ("next", b), ("adv", 1), ("adv", 2), ("done",), ("unsub", 0)]
     if tier == "quick":
         L, configs = 3, [(None, None), (0, None), (1, None), (2, 1), (None, 1), (1, 2), (2, 0)]
     else:
         L, configs = 4, [(bs, w) for bs in (None, 0, 1, 2, 3) for w in (None, 0, 1, 2)]
-    cases = [(h, bs, w) for (bs, w) in configs for h in enum_flat(alpha, L)]
+
+    def rot_cfg(i, drains="auto"):
+        # deterministic rotation: window representation x tick length x scheduler class
+        return {"sched": SCHEDS[(i // 15) % 3] if i % 2 else "vt", "scale": SCALES[(i // 5) % 3],
+                "wrep": WREPS[i % 5], "drains": drains}
+
+    cases = []
+    for (bs, w) in configs:
+        for i, h in enumerate(enum_flat(alpha, L)):
+            cases.append((h, bs, w, rot_cfg(i), {}))
     n_flat = len(cases)
-    nrand = 900 if tier == "quick" else 15000
+    # ---- explicit drains: exhaustive small scope.  The alphabet has the drain itself; the runner adds the
+    # final one.  Two families: from scratch, and behind `next a; next b; sub 0` (a replay is queued).
+    xalpha = [("sub", 0), ("sub", 1), ("next", a), ("unsub", 0), ("adv", 1), ("done",), ("err", ERR_FALSY),
+              ("drain",)]
+    if tier == "quick":
+        xconfigs, xl, xpre = [(None, None), (1, None), (2, 1)], 3, [(None, None), (2, 1)]
+    else:
+        xconfigs, xl = [(None, None), (0, None), (1, None), (2, 1), (None, 0), (1, 2)], 4
+        xpre = [(None, None), (2, 1), (1, 2)]
+    for (bs, w) in xconfigs:
+        for i, h in enumerate(enum_flat(xalpha, xl)):
+            cases.append((h, bs, w, rot_cfg(i, "explicit"), {}))
+            if h[0] and (bs, w) in xpre:
+                cases.append((([("next", a), ("next", b), ("sub", 0)] + h[0], {}), bs, w, rot_cfg(i + 7, "explicit"), {}))
+    n_xflat = len(cases) - n_flat
+    nrand = 600 if tier == "quick" else 15000
     for _ in range(nrand):
+        cfg = {"sched": rng.choice(SCHEDS), "scale": rng.choice(SCALES), "wrep": rng.choice(WREPS), "drains": "auto"}
         cases.append((gen_history(rng, adv=True), rng.choice([None, 0, 1, 2, 3, 4]),
-                      rng.choice([None, None, 0, 1, 2, 3, 5, 100])))
-    return cases, {"exhaustive_flat": n_flat, "random": nrand,
-                   "flat_scope": f"all sequences of length <= {L} over {alpha} x (buffer_size, window) in {configs}"}
+                      rng.choice([None, None, 0, 1, 2, 3, 5, 100]), cfg, rand_forms(rng)))
+    nxrand = 700 if tier == "quick" else 15000
+    for _ in range(nxrand):
+        cfg = {"sched": rng.choice(SCHEDS), "scale": rng.choice(SCALES), "wrep": rng.choice(WREPS),
+               "drains": "explicit"}
+        top, scripts = gen_history(rng, adv=True)
+        p = rng.choice([0.0, 0.3, 0.7])
+        top2 = []
+        for op in top:
+            top2.append(op)
+            if rng.random() < p:
+                top2.append(("drain",))
+        cases.append(((top2, scripts), rng.choice([None, 0, 1, 2, 3, 4]),
+                      rng.choice([None, None, 0, 1, 2, 3, 5, 100]), cfg, rand_forms(rng)))
+    return cases, {"exhaustive_flat": n_flat, "explicit_drain_exhaustive": n_xflat, "random": nrand,
+                   "explicit_drain_random": nxrand,
+                   "flat_scope": f"all sequences of length <= {L} over {alpha} x (buffer_size, window) in {configs}",
+                   "explicit_scope": f"all sequences of length <= {xl} over {xalpha} x (buffer_size, window) in "
+                                     f"{xconfigs}, and the same behind `next a; next b; sub 0` for {xpre}"}
 
 
 def replay_sync_cases(tier, rng):
@@ -891,7 +1334,7 @@ def replay_sync_cases(tier, rng):
     first or second callback with one call (emit / complete / fail / unsubscribe / subscribe / dispose)."""
     a, b, c = 0, 2, 1
     cases = []
-    tail = [("next", a), ("next", b), ("done",), ("err", 11), ("sub", 2), ("unsub", 1)]
+    tail = [("next", a), ("next", b), ("done",), ("err", ERR_FALSY), ("sub", 2), ("unsub", 1)]
     reactions = [("next", c), ("done",), ("err", 12), ("unsub", 0), ("unsub", 1), ("sub", 3), ("dispose",)]
     configs = [None, 0, 1, 2] if tier == "quick" else [None, 0, 1, 2, 3]
     L = 2 if tier == "quick" else 3
@@ -902,17 +1345,26 @@ def replay_sync_cases(tier, rng):
                     for r in reactions:
                         for when in (0, 1):
                             sc = [[], [r]] if when else [[r]]
-                            cases.append((([("sub", 0), ("sub", 1)] + list(t), {who: sc}), bs, None))
+                            cases.append((([("sub", 0), ("sub", 1)] + list(t), {who: sc}), bs, None,
+                                          rot_forms(len(cases), 4)))
     n_ex = len(cases)
     alpha = [("sub", 0), ("sub", 1), ("next", a), ("next", b), ("done",), ("unsub", 0), ("dispose",)]
     for bs in (None, 1):
-        cases += [(h, bs, None) for h in enum_flat(alpha, 3)]
+        cases += [(h, bs, None, rot_forms(i, 2)) for i, h in enumerate(enum_flat(alpha, 3))]
     n_flat = len(cases) - n_ex
     nrand = 700 if tier == "quick" else 12000
     for _ in range(nrand):
         cases.append((gen_history(rng, adv=False), rng.choice([None, 0, 1, 2, 3, 4]),
-                      rng.choice([None, None, 1000000])))
+                      rng.choice([None, None, 1000000]), rand_forms(rng)))
     return cases, {"sync_exhaustive_reentrant": n_ex, "sync_exhaustive_flat": n_flat, "sync_random": nrand}
+
+
+def xd_stats(rec, H):
+    """coverage of the explicit-drain mode: top-level calls made while scheduler actions are queued"""
+    q = H.setdefault("top_level_call_while_actions_queued", {})
+    for r in rec:
+        if r["t"] == "call" and r["parent"] is None and r.get("pending"):
+            q[r["op"][0]] = q.get(r["op"][0], 0) + 1
 
 
 def check_replay(chk):
@@ -924,20 +1376,31 @@ def check_replay(chk):
     if tier != chk.tier:
         chk.cov["search"] = "theorem file or build broke: case set enlarged to the thorough scope"
     cases, scope = replay_cases(tier, chk.rng)
-    gal, H, nontrivial, kept = [], new_hist(), set(), []
+    gal2, kept2, H, nontrivial, kept = [], [], new_hist(), set(), []
     seen_sigs = set()
     H.update({"spinning_discarded": 0, "buffer_size": {}, "window": {}, "age_equals_window": 0,
-              "replayed_values": 0})
-    for (h, bs, w) in cases:
-        rec, probe, ok = run_replay(h, bs, w)
+              "replayed_values": 0, "falsy_error": 0, "late_subscriber_after_falsy_error": 0, "forms": {},
+              "scheduler": {}, "window_representation": {}, "tick_seconds": {}, "drains": {}})
+    nontrivial_x = set()
+    for (h, bs, w, cfg, forms) in cases:
+        rec, probe, ok = run_replay(h, bs, w, cfg, forms)
         chk.cov["evaluations"] += 1
         if not ok:
             H["spinning_discarded"] += 1
             continue
+        explicit = cfg["drains"] == "explicit"
         hist_stats(h, rec, H)
+        form_stats(rec, forms, H)
         H["buffer_size"][str(bs)] = H["buffer_size"].get(str(bs), 0) + 1
         H["window"][str(w)] = H["window"].get(str(w), 0) + 1
+        H["scheduler"][cfg["sched"]] = H["scheduler"].get(cfg["sched"], 0) + 1
+        H["drains"][cfg["drains"]] = H["drains"].get(cfg["drains"], 0) + 1
+        H["tick_seconds"][str(cfg["scale"])] = H["tick_seconds"].get(str(cfg["scale"]), 0) + 1
+        if w is not None:
+            H["window_representation"][cfg["wrep"]] = H["window_representation"].get(cfg["wrep"], 0) + 1
         tr = Trace(rec)
+        if explicit:
+            xd_stats(rec, H)
         if w is not None:
             for o, S in tr.sub.items():
                 if any(c["op"][0] == "next" and c["start"] < S["start"] and S["now"] - c["now"] == w
@@ -945,41 +1408,43 @@ def check_replay(chk):
                     H["age_equals_window"] += 1
                     break
         if any(len(tr.view[o]) >= 2 for o in tr.observers) and is_nontrivial(rec):
-            nontrivial.add(hist_key(h) + repr((bs, w)))
-        for sig, detail in oracle_replay(h, bs, w, rec, probe):
+            (nontrivial_x if explicit else nontrivial).add(hist_key(h) + repr((bs, w)))
+        for sig, detail in oracle_replay(h, bs, w, rec, probe, cfg=cfg):
             if sig in seen_sigs:
                 continue
             seen_sigs.add(sig)
             def still(hh, _sig=sig):
-                r2, p2, ok2 = run_replay(hh, bs, w)
-                return ok2 and any(s == _sig for s, _ in oracle_replay(hh, bs, w, r2, p2))
+                r2, p2, ok2 = run_replay(hh, bs, w, cfg, forms)
+                return ok2 and any(s == _sig for s, _ in oracle_replay(hh, bs, w, r2, p2, cfg=cfg))
             hm = shrink(h, still)
-            r2, p2, _ = run_replay(hm, bs, w)
-            d2 = [d for s, d in oracle_replay(hm, bs, w, r2, p2) if s == sig][0]
+            r2, p2, _ = run_replay(hm, bs, w, cfg, forms)
+            d2 = [d for s, d in oracle_replay(hm, bs, w, r2, p2, cfg=cfg) if s == sig][0]
             chk.violation(f"ReplaySubject|{sig}",
                           {"class": "ReplaySubject", "buffer_size": bs, "window": w, "history": hist_json(hm),
+                           "vt": cfg, "window_argument": repr(window_arg(w, cfg["scale"], cfg["wrep"])),
+                           "forms": {str(k): v for k, v in forms.items()},
                            "pool": [repr(v) for v in POOL.values],
+                           "error_codes": "11, 12: UserError; 13: FalsyUserError (bool(e) is False)",
                            "implementation_log": g_log(r2, "R", "RE"), "oracle": d2,
                            "expected": "see harness/subj.py:oracle_replay docstring"},
                           size=hist_size(hm))
-        gal.append((f"(({gopt(bs)}, {gopt(w)}), {g_hist(h, 'R')})", f"({g_log(rec, 'R', 'RE')}, true)"))
-        kept.append((h, bs, w))
+        gal2.append((f"(false, (({gopt(bs)}, {gopt(w)}), {g_xhist(h, cfg['drains'])}))",
+                     f"({g_log(rec, 'R', 'RE')}, true)"))
+        kept2.append((cfg["drains"], h, bs, w, cfg))
+        kept.append((h, bs, w, cfg))
     # ---- the same property with the default scheduler (CurrentThreadScheduler trampoline)
     scases, sscope = replay_sync_cases(tier, chk.rng)
-    gal2, kept2 = [], []
-    for (h, bs, w), (a_, b_) in zip(kept, gal):
-        gal2.append((f"(false, {a_})", b_))
-        kept2.append(("vt", h, bs, w))
     H["sync"] = new_hist()
-    H["sync"]["trampoline_not_idle_discarded"] = 0
+    H["sync"].update({"trampoline_not_idle_discarded": 0, "forms": {}})
     nontrivial_sync = set()
-    for (h, bs, w) in scases:
-        rec, probe, ok = run_replay_sync(h, bs, w)
+    for (h, bs, w, forms) in scases:
+        rec, probe, ok = run_replay_sync(h, bs, w, forms)
         chk.cov["evaluations"] += 1
         if not ok:
             H["sync"]["trampoline_not_idle_discarded"] += 1
             continue
         hist_stats(h, rec, H["sync"])
+        form_stats(rec, forms, H["sync"])
         tr = Trace(rec)
         if any(len(tr.view[o]) >= 2 for o in tr.observers) and is_nontrivial(rec):
             nontrivial_sync.add(hist_key(h) + repr((bs, w)))
@@ -988,72 +1453,90 @@ def check_replay(chk):
                 continue
             seen_sigs.add(sig)
             def still(hh, _sig=sig):
-                r2, p2, ok2 = run_replay_sync(hh, bs, w)
+                r2, p2, ok2 = run_replay_sync(hh, bs, w, forms)
                 return ok2 and any(s == _sig for s, _ in oracle_replay(hh, bs, w, r2, p2, sync=True))
             hm = shrink(h, still)
-            r2, p2, _ = run_replay_sync(hm, bs, w)
+            r2, p2, _ = run_replay_sync(hm, bs, w, forms)
             d2 = [d for s, d in oracle_replay(hm, bs, w, r2, p2, sync=True) if s == sig][0]
             chk.violation(f"ReplaySubject|{sig}",
                           {"class": "ReplaySubject", "scheduler": "default (CurrentThreadScheduler)",
                            "buffer_size": bs, "window": w, "history": hist_json(hm),
+                           "forms": {str(k): v for k, v in forms.items()},
                            "pool": [repr(v) for v in POOL.values],
+                           "error_codes": "11, 12: UserError; 13: FalsyUserError (bool(e) is False)",
                            "implementation_log": g_log(r2, "R", "RE"), "oracle": d2,
                            "expected": "see harness/subj.py:oracle_replay docstring (per-subscriber order = "
                                        "retained values then later notifications in call order)"},
                           size=hist_size(hm))
-        gal2.append((f"(true, (({gopt(bs)}, {gopt(w)}), {g_hist(h, 'R')}))",
+        gal2.append((f"(true, (({gopt(bs)}, {gopt(w)}), {g_xhist(h, 'sync')}))",
                      f"({g_log(rec, 'R', 'RE')}, true)"))
-        kept2.append(("sync", h, bs, w))
-    prelude2 = (f"Definition model (c : bool * ((option Z * option Z) * rhistory Z)) := "
-                f"run_shistory (fst c) (fst (fst (snd c))) (snd (fst (snd c))) {FUEL} (snd (snd c)).\n"
+        kept2.append(("sync", h, bs, w, None))
+    prelude2 = (f"Definition model (c : bool * ((option Z * option Z) * xhistory Z)) := "
+                f"run_xhistory (fst c) (fst (fst (snd c))) (snd (fst (snd c))) {FUEL} (snd (snd c)).\n"
                 "Definition out_eqb (a b : list (@revent Z) * bool) := "
                 "list_eqb revent_eqb (fst a) (fst b) && Bool.eqb (snd a) (snd b).\n")
     bad2, logs2 = correspond(pid, "k1s", REPLAY_IMPORTS,
-                             "(bool * ((option Z * option Z) * rhistory Z)) * (list (@revent Z) * bool)",
+                             "(bool * ((option Z * option Z) * xhistory Z)) * (list (@revent Z) * bool)",
                              gal2, prelude2)
     if bad2:
         firsts = [i for i in bad2 if i >= 0][:3]
         detail = {"n_disagreements": len(bad2), "logs": logs2[:1],
-                  "first (sync?, ((buffer_size, window), history)) / implementation log": [gal2[i] for i in firsts]}
+                  "first (sync?, ((buffer_size, window), program)) / implementation log": [gal2[i] for i in firsts]}
         if firsts:
             detail["model_says"] = lib.coq_show(pid, REPLAY_IMPORTS, f"model {gal2[firsts[0]][0]}", prelude2)
-            detail["mode, history, buffer_size, window"] = (kept2[firsts[0]][0], hist_json(kept2[firsts[0]][1]),
-                                                            kept2[firsts[0]][2], kept2[firsts[0]][3])
-        chk.tie_broken("correspondence K1: Subjects/ReplaySched.v (both scheduler modes) vs ReplaySubject", detail)
+            k0 = kept2[firsts[0]]
+            detail["mode, history, buffer_size, window, vt"] = (k0[0], hist_json(k0[1]), k0[2], k0[3], k0[4])
+        chk.tie_broken("correspondence K1: Subjects/ReplaySched.v (default scheduler / virtual time with automatic "
+                       "or explicit drains) vs ReplaySubject", detail)
     chk.cov["traces_validated_against_impl"] = len(gal2)
     chk.cov["disagreements_checked"] = len(gal2)
-    chk.cov["distinct_nontrivial"] = len(nontrivial) + len(nontrivial_sync)
-    chk.cov["distinct_nontrivial_by_scheduler"] = {"VirtualTimeScheduler": len(nontrivial),
+    chk.cov["distinct_nontrivial"] = len(nontrivial) + len(nontrivial_sync) + len(nontrivial_x)
+    chk.cov["distinct_nontrivial_by_scheduler"] = {"virtual time, drained after every call": len(nontrivial),
+                                                   "virtual time, explicit drains": len(nontrivial_x),
                                                    "CurrentThreadScheduler": len(nontrivial_sync)}
     scope.update(sscope)
     chk.cov["exhaustive"] = True
-    chk.cov["rule"] = ("TWO scheduler modes.  (a) default CurrentThreadScheduler (trampoline; drains run inline at top "
+    chk.cov["rule"] = ("THREE drain disciplines.  (a) default CurrentThreadScheduler (trampoline; drains run inline at top "
                        "level, queued when scheduled from inside a callback): exhaustive `sub0 sub1 ++ tails of <= 2/3 "
                        "emissions` with observer 0 or 1 reacting in its 1st or 2nd callback with one of next/done/err/"
                        "unsub0/unsub1/sub3/dispose, buffer_size None,0,1,2(,3); exhaustive flat histories of length "
-                       "<= 3; seeded random call trees.  (b) VirtualTimeScheduler: "
+                       "<= 3; seeded random call trees.  (b) virtual time, drained after every top-level call: "
                        "exhaustive small scope (" + scope["flat_scope"] + ") + seeded random call trees (as C20, plus "
                        "clock advances 0..5 ticks) with buffer_size in None,0..4 and window in None,0,1,2,3,5,100 "
-                       "ticks.  The subject runs on a VirtualTimeScheduler drained after every top-level call.  "
+                       "ticks.  (c) virtual time with EXPLICIT drains: ('drain',) is a history operation (plus one final "
+                       "drain), so top-level unsubscribe / emission / subscribe / clock advance happen while replay "
+                       "items are still queued: exhaustive (" + scope["explicit_scope"] + ") + random trees with a "
+                       "drain after each call with probability 0, 0.3 or 0.7.  In (b),(c) the scheduler is a "
+                       "VirtualTimeScheduler (float clock) or a HistoricalScheduler (datetime clock, default or "
+                       "explicit initial instant), one tick is 1, 0.5 or 0.25 s, and the window is handed over as "
+                       "int / float / timedelta / a fractional float or timedelta half a tick longer (rotated over "
+                       "the exhaustive cases, random otherwise); none of this is visible to the model.  Error "
+                       "payloads include a falsy exception object; subscribers use the four full forms of C20.  "
                        "non-trivial = distinct (history, configuration) with deliveries to >= 2 observers, one "
                        "of which received >= 2 notifications")
     chk.cov["input_distribution"] = dict(H, **{k: v for k, v in scope.items() if isinstance(v, int)})
     step = max(1, len(kept) // 5)
-    chk.add_samples([{"history": hist_json(h), "buffer_size": bs, "window": w} for (h, bs, w) in kept[step - 1::step]])
+    chk.add_samples([{"history": hist_json(h), "buffer_size": bs, "window": w, "vt": cfg}
+                     for (h, bs, w, cfg) in kept[step - 1::step]])
     return chk.finish(
-        trusted_extra=["K1 driver harness/subj.py; two scheduler modes: (a) the DEFAULT CurrentThreadScheduler "
-                       "(real trampoline; nothing is drained by the driver), (b) a real VirtualTimeScheduler drained by "
-                       "the driver with start() after every top-level call; the FIFO of either is modelled (r_sched) "
-                       "and covered by the correspondence with Subjects/ReplaySched.v",
+        trusted_extra=["K1 driver harness/subj.py; scheduler modes: (a) the DEFAULT CurrentThreadScheduler "
+                       "(real trampoline; nothing is drained by the driver), (b)/(c) a real VirtualTimeScheduler or "
+                       "HistoricalScheduler drained by the driver with start() after every top-level call / where the "
+                       "history says so; the FIFO of either is modelled (r_sched) "
+                       "and covered by the correspondence with Subjects/ReplaySched.v (run_xhistory)",
                        "ScheduledObserver, SerialDisposable, RemovableDisposable, AutoDetachObserver modelled in "
                        "Subjects/Replay.v"],
         assumptions=["single thread; observer callbacks do not raise",
                      "fewer than 100 scheduler actions per drain (VirtualTimeScheduler.start bumps the clock "
                      "after 100 actions at one instant; such runs are discarded and counted: spinning_discarded)",
-                     "buffer_size >= 0 or None; clock advances >= 0; window in whole ticks",
+                     "buffer_size >= 0 or None; clock advances >= 0 whole ticks (a tick is 1, 0.5 or 0.25 s); the "
+                     "window is a whole number of ticks or half a tick more (equivalent, ages being whole ticks): "
+                     "the model computes in ticks",
                      "default-scheduler mode: the scheduler clock is the wall clock, so only window None or "
                      "10**6 s is used there (time windows are exercised in virtual-time mode); other schedulers "
-                     "(ImmediateScheduler, event loops, thread pools) are not exercised"])
+                     "(ImmediateScheduler, event loops, thread pools) are not exercised",
+                     "partial subscriber forms (default raising on_error) are exercised for C20/C21/C23 only: here a "
+                     "raising handler would run inside a scheduler action"])
 
 
 def replay_replay(chk, path):
@@ -1062,16 +1545,19 @@ def replay_replay(chk, path):
     if "history" not in d:
         print(json.dumps(d, indent=1))
         return 1
-    h = hist_from_json(d["history"])
+    h, forms = hist_from_json(d["history"]), forms_from_json(d)
     sync = str(d.get("scheduler", "")).startswith("default")
+    cfg = d.get("vt")
     if sync:
-        rec, probe, ok = run_replay_sync(h, d["buffer_size"], d["window"])
+        rec, probe, ok = run_replay_sync(h, d["buffer_size"], d["window"], forms)
     else:
-        rec, probe, ok = run_replay(h, d["buffer_size"], d["window"])
-    bad = oracle_replay(h, d["buffer_size"], d["window"], rec, probe, sync=sync)
-    print("scheduler", "default CurrentThreadScheduler" if sync else "VirtualTimeScheduler")
-    print("history", h, "buffer_size", d["buffer_size"], "window", d["window"])
+        rec, probe, ok = run_replay(h, d["buffer_size"], d["window"], cfg, forms)
+    bad = oracle_replay(h, d["buffer_size"], d["window"], rec, probe, sync=sync, cfg=cfg)
+    print("scheduler", "default CurrentThreadScheduler" if sync else dict(VT_DEFAULT, **(cfg or {})))
+    print("history", h, "buffer_size", d["buffer_size"], "window", d["window"], "forms", forms)
     print("implementation log", g_log(rec, "R", "RE"), "bare-subscribe probe", probe)
     for s, dd in bad:
         print("ORACLE FAILS", s, dd)
+    if bad:
+        print(f"VIOLATION property=C22 replay={path}")
     return 1 if bad else 0
